@@ -376,13 +376,58 @@ def check(rep, prop, tier, seed):
                 dg.append(last)
                 kinds.append("final-valid")
                 jobs.append((which, "%s:%s" % (which, "".join(modeargs.values()) or "-"), args, modeargs, dg, kinds))
+            # every length field x a grid of boundary values (with and without a NUL-free tail filling
+            # the buffer), delivered in one run per (field, tail)
+            for tscf in ((True, False) if which in ("can", "hello", "vss") else (False,)):
+                cfo = 4 if udp else 0
+                acfo = cfo + (24 if tscf else 12) if which in ("can", "hello", "vss") else 0
+                for fmt, fld in LEN_FIELDS[which]:
+                    if (fmt == "Tscf" and not tscf) or (fmt == "Ntscf" and tscf) or fmt == "Can" and fld == "PAD" and not thorough:
+                        continue
+                    if which == "crf" and fmt == "Pcm":
+                        mk = lambda: bytes(aaf_packet(rng, 24))
+                    elif which == "crf":
+                        mk = lambda: bytes(crf_packet(rng))
+                    else:
+                        mk = {"can": lambda: bytes(can_packet(rng, tscf, udp, modeargs.get("f") == "f", 2)),
+                              "hello": lambda: bytes(hello_packet(rng, tscf, udp)), "vss": lambda: bytes(vss_packet(rng, tscf, udp, True)),
+                              "cvf": lambda: bytes(cvf_packet(rng, 40)), "aaf": lambda: bytes(aaf_packet(rng))}[which]
+                    w = next(x for x in spec()[fmt]["fields"] if x["enum"].endswith(fld))["width"]
+                    off = cfo if fmt in ("Tscf", "Ntscf") else acfo
+                    for tail in (("plain", "no-nul-tail") if which in ("hello", "vss", "can") else ("plain",)):
+                        dg = []
+                        for val in sorted({0, 1, 2, 3, 4, 5, 6, 7, 8, 9, (1 << w) - 1, (1 << w) - 2, 1 << (w - 1), 375, 376, 23, 24, 25, 26, 100, 101}
+                                          | {v for base in (len(mk()) - off, (len(mk()) - off) // 4, len(mk()) - acfo, (len(mk()) - acfo) // 4) for v in (base - 1, base, base + 1)}):
+                            if val < 0 or val >= (1 << w):
+                                continue
+                            b = bytearray(mk())
+                            setf(b, off, fmt, fld, val)
+                            if tail == "no-nul-tail":
+                                keep = min(len(b), acfo + 16)
+                                b = b[:keep] + bytes(rng.randrange(1, 256) for _ in range(1500 - keep))
+                            dg.append(bytes(b))
+                        last = bytes(crf_packet(rng, stream_id=0x1122334455667788)) if which == "crf" else mk()
+                        if which == "cvf":
+                            last = bytes(cvf_packet(rng, 40))
+                        jobs.append((which, "%s:%s" % (which, "".join(modeargs.values()) or "-"), args, modeargs, dg + [last],
+                                     ["length-grid:%s.%s:%s" % (fmt, fld, tail)] * len(dg) + ["final-valid"]))
+            if which == "crf":
+                # the 32-bit presentation time at its boundaries, on and off the media-clock grid, with and without queued CRF timestamps
+                for pre in ((), (0,), (8,), (125000 * 3,), ((1 << 32) - 125000 * 2,)):
+                    for ts in (0, 1, 7, 8, 124999, 125000, 125001, (1 << 31) - 1, 1 << 31, (1 << 32) - 125001, (1 << 32) - 125000, (1 << 32) - 124999,
+                               (1 << 32) - 8, (1 << 32) - 2, (1 << 32) - 1):
+                        v = bytearray(aaf_packet(rng, 24))
+                        setf(v, 0, "Pcm", "AVTP_TIMESTAMP", ts)
+                        dg = [bytes(crf_packet(rng, ts0=t0)) for t0 in pre] + [bytes(v), bytes(aaf_packet(rng, 24))]
+                        jobs.append((which, "%s:%s" % (which, "".join(modeargs.values())), args, modeargs,
+                                     dg + [bytes(crf_packet(rng, stream_id=0x1122334455667788))], ["timestamp-grid"] * len(dg) + ["final-valid"]))
             # every truncation point of one valid packet, delivered in one run
             for tscf in ((True, False) if which in ("can", "hello", "vss") else (False,)):
                 base = {"can": lambda: bytes(can_packet(rng, tscf, udp, modeargs.get("f") == "f", 2)),
                         "hello": lambda: bytes(hello_packet(rng, tscf, udp)), "vss": lambda: bytes(vss_packet(rng, tscf, udp, True)),
                         "cvf": lambda: bytes(cvf_packet(rng, 40)), "aaf": lambda: bytes(aaf_packet(rng)),
                         "crf": lambda: bytes(crf_packet(rng))}[which]()
-                cuts = range(0, len(base)) if thorough else sorted(set(rng.randrange(0, len(base)) for _ in range(12)))
+                cuts = range(0, len(base)) if thorough else sorted({0, 1, len(base) - 1} | set(rng.randrange(0, len(base)) for _ in range(12)))
                 dg = [base[:k] for k in cuts]
                 last = bytes(crf_packet(rng, stream_id=0x1122334455667788)) if which == "crf" else base
                 jobs.append((which, "%s:%s" % (which, "".join(modeargs.values()) or "-"), args, modeargs, dg + [last], ["truncate-sweep"] * len(dg) + ["final-valid"]))
